@@ -60,3 +60,20 @@ pub use crate::tracker_client::TrackerClient;
 pub use crate::tracker_resp::TrackerResp;
 
 pub use crate::session::Session;
+
+/// Verification hooks: re-exports of crate-private items for the external verification harness.
+/// Compiled only with `--cfg rdest_verif`.
+#[cfg(rdest_verif)]
+#[allow(missing_docs)]
+pub mod verif {
+    pub use crate::bcodec::bencoder::BEncoder;
+    pub use crate::commands::*;
+    pub use crate::connection::Connection;
+    pub use crate::constants::*;
+    pub use crate::extractor::Extractor;
+    pub use crate::frame::Frame;
+    pub use crate::messages::*;
+    pub use crate::peer_handler::PeerHandler;
+    pub use crate::serializer::Serializer;
+    pub use crate::session::{Status, VerifPeerSnapshot, VerifSnapshot};
+}
